@@ -67,6 +67,8 @@ def main():
         print("lmdb shim self-test FAILED", e)
         ok = False
     for path in sorted(glob.glob(os.path.join(C.VERIF, "spec", "*.tla"))):
+        if path.endswith("_proofs.tla"):
+            continue        # proof modules extend TLAPS.tla, which belongs to tlapm's library, not to SANY's: tlapm checks them (C16)
         good, out = tlc.sany(path)
         print("SANY %-24s %s" % (os.path.basename(path), "ok" if good else "FAILED"))
         if not good:
